@@ -4,8 +4,10 @@ Model of `events/ratelimiting/coalescing.go` (dapr/kit), after the repair of `Cl
 plus counters for the helper goroutines it starts.  Core Lean only.
 
 Correspondence of labels to code:
-* `runCall`/`run`   – `go c.Run(ctx, ch)` was issued / `Run` passed its prologue (`wg.Add(1)`; returns at
-                      once when already closed).
+* `runCall`/`run`   – a `Run(ctx, ch)` call was issued / that call won `running.CompareAndSwap(false, true)`
+                      and passed the prologue (`wg.Add(1)`; returns nil at once when already closed).
+* `runErrRet`       – a `Run` call that lost the compare-and-swap returned "already running" (any
+                      number of further `Run` calls, at any time, also after `Close`).
 * `add`             – body of `Add()` (one critical section of `c.lock`): refused when closed, else
                       `pendingEvents++` and a token goroutine is started.
 * `top`             – loop head: re-reads `c.timer.C()` under `RLock` and parks in the `select`.
@@ -77,7 +79,12 @@ structure State where
   closed : Bool := false
   /-- context passed to `Run` cancelled. -/
   cancelled : Bool := false
-  runCalled : Bool := false
+  /-- `Run` calls issued that have not done their compare-and-swap yet. -/
+  runCalls : Nat := 0
+  /-- the `running` flag (set by the one `Run` call that wins). -/
+  casDone : Bool := false
+  /-- `Run` calls that returned "already running". -/
+  runErrReturned : Nat := 0
   loop : Loop := .off
   /-- `Close` calls inside `wg.Wait()`. -/
   closeWaiting : Nat := 0
@@ -102,7 +109,7 @@ def init (cfg : Config) : State :=
     factor := Generated.C09.initFactor }
 
 inductive Label where
-  | runCall | run | add | top | deliver | tokenGiveUp | expire | exitLoop
+  | runCall | run | runErrRet | add | top | deliver | tokenGiveUp | expire | exitLoop
   | advance (t : Nat)
   | close | closeRet | cancel | consume | senderGiveUp | runRet
   deriving Repr, DecidableEq
@@ -175,10 +182,15 @@ def State.helpers (s : State) : Nat := s.tokens + s.senders + (if s.running then
 /-! ### transitions -/
 
 def step (cfg : Config) (s : State) : Label → Option State
-  | .runCall => if s.runCalled then none else some { s with runCalled := true }
+  | .runCall => some { s with runCalls := s.runCalls + 1 }
   | .run =>
-    if s.runCalled ∧ s.loop = .off then
-      some { s with loop := if s.closed then .done else .top }
+    if 0 < s.runCalls ∧ s.casDone = false then
+      some { s with runCalls := s.runCalls - 1, casDone := true,
+                    loop := if s.closed then .done else .top }
+    else none
+  | .runErrRet =>
+    if 0 < s.runCalls ∧ s.casDone = true then
+      some { s with runCalls := s.runCalls - 1, runErrReturned := s.runErrReturned + 1 }
     else none
   | .add =>
     if s.closed then some s
